@@ -2,17 +2,18 @@ import PlasVerif.Proofs.Urls
 import PlasVerif.Proofs.UrlsNav
 import PlasVerif.Proofs.UrlsRender
 import PlasVerif.Proofs.UrlsToc
+import PlasVerif.Proofs.UrlsFoot
 /-!
 # C14 — every internal link in the rendered output lands on an existing target
 
-Property theorems only; helper lemmas are in `Proofs/Urls.lean`, `Proofs/UrlsNav.lean`, `Proofs/UrlsToc.lean`, `Proofs/UrlsRender.lean`.  The model (`Model/Urls.lean`) mirrors
+Property theorems only; helper lemmas are in `Proofs/Urls.lean`, `Proofs/UrlsNav.lean`, `Proofs/UrlsToc.lean`, `Proofs/UrlsFoot.lean`, `Proofs/UrlsRender.lean`.  The model (`Model/Urls.lean`) mirrors
 `Macro.id`/`idgen`, `Renderer.cacheFilenames`, `Renderable.filename`/`url`/`__str__`,
 `SectionUtils.tableofcontents`/`links`, the `TableOfContents` proxy and `Context.label`.
 `prepare split t g` is the tree after `cacheFilenames` and after every template has read its `obj.id`;
 `render` is the set of files written with the identifiers emitted into each.
 -/
 namespace PlasVerif.Properties.C14
-open PlasVerif.Model.Urls PlasVerif.Spec.Links PlasVerif.Proofs.Urls PlasVerif.Proofs.UrlsNav PlasVerif.Proofs.UrlsRender PlasVerif.Proofs.UrlsToc
+open PlasVerif.Model.Urls PlasVerif.Spec.Links PlasVerif.Proofs.Urls PlasVerif.Proofs.UrlsNav PlasVerif.Proofs.UrlsRender PlasVerif.Proofs.UrlsToc PlasVerif.Proofs.UrlsFoot
 
 /-- a small document used for the non-vacuity examples: document{ section[s1]{ par{ equation[e1] } subsection } section } -/
 def sample : Tree :=
@@ -231,5 +232,47 @@ theorem url_file_is_c13_owner (tag : Tree → Nat) (fname : Nat → String) (roo
 
 example : (PlasVerif.Model.Render.child (toRender (fun t => t.level.toNat) (fun k => s!"f{k}") (prepare 1 sample 0))).2.map (·.1)
     = ["f1", "f2", "f0"] := by decide
+
+/-- a document with footnotes: one in a section that becomes a file at split level 1, one in a subsection below it -/
+def sampleFoot : Tree :=
+  .node (-1000000) none "" none
+    [.node 1 (some (.lab "s1")) "1" none
+       [.node 101 none "" none [.node 1001 none { num := "", foot := true } none []],
+        .node 2 none "1.1" none [.node 101 none "" none [.node 1001 none { num := "", foot := true } none []]]]]
+
+/-- **Footnote marks land**: a footnote's mark `<a href="#id">` is printed in the file of the footnote's own URL
+    (it is part of the parent's string); its text `<li id="id">` is printed by the layout of the file-producing
+    section that `SectionUtils.footnotes` finds by walking `currentSection` until a section has a filename.
+    When only sections create files and footnotes are not sections (`navOK`, decidable, evaluated by the driver;
+    `prepared_navOK` below), the two files are the same file, and it is a produced file. -/
+theorem footnote_mark_lands (root : Tree) (f0 : Nat) (hf0 : root.file = some f0) (hok : navOK root = true) :
+    ∀ e ∈ footnotes [] root, e.2.1 = e.2.2 ∧ ∃ f ids, e.2.1 = some f ∧ (f, ids) ∈ (render root).2 := by
+  intro e he
+  refine ⟨(foot_tree [] (by simp) root (by rw [← navOK_eq]; exact hok) e he).1, ?_⟩
+  obtain ⟨p, hp, _, e2⟩ := footnotes_sub [] root e he
+  obtain ⟨f, ids, a, b, _⟩ := land_root root f0 hf0 p hp
+  exact ⟨f, ids, by rw [← e2]; exact a, b⟩
+
+/-- after `cacheFilenames` at any split level below `ENDSECTIONS_LEVEL`, only sections have files -/
+theorem prepared_navOK (split : Int) (hs : split < endSections) (t : Tree) (g : Nat) (h : inputOK t = true) :
+    navOK (prepare split t g) = true := prepare_navOK split hs t g h
+
+/-- **Footnote marks land, stated on the input document and the configuration**: for every filename template
+    (a template that names a single file forces level −10 whatever `split-level` says: `effSplit`), every
+    configured split level below `ENDSECTIONS_LEVEL`, every document in which footnotes are not sections. -/
+theorem footnote_mark_lands_of_document (split : Int) (hs : split < endSections) (tmpl : List Char) (t : Tree) (g : Nat)
+    (hroot : t.level ≤ effSplit split tmpl) (h : inputOK t = true) :
+    ∀ e ∈ footnotes [] (prepare (effSplit split tmpl) t g),
+      e.2.1 = e.2.2 ∧ ∃ f ids, e.2.1 = some f ∧ (f, ids) ∈ (render (prepare (effSplit split tmpl) t g)).2 :=
+  footnote_mark_lands _ 0 (prepare_root_file _ t g hroot)
+    (prepare_navOK _ (effSplit_lt split tmpl hs) t g h)
+
+example : inputOK sampleFoot = true ∧ effSplit 2 "paper.html".toList = -10 ∧
+    effSplit 2 "index [$id, sect$num(4)]".toList = 2 ∧
+    (footnotes [] (prepare (effSplit 2 "paper.html".toList) sampleFoot 0)).map (fun e => (e.2.1, e.2.2)) =
+      [(some 0, some 0), (some 0, some 0)] ∧
+    (footnotes [] (prepare 1 sampleFoot 0)).map (fun e => (e.2.1, e.2.2)) = [(some 1, some 1), (some 1, some 1)] ∧
+    (footnotes [] (prepare 2 sampleFoot 0)).map (fun e => (e.2.1, e.2.2)) = [(some 1, some 1), (some 2, some 2)] := by
+  decide
 
 end PlasVerif.Properties.C14
